@@ -217,6 +217,8 @@ def _check_full_doc(fail, full, raw, ref, api, layout):
     want = [M.describe(ref.sig, False)]
     if ref.unbound_sig is not None:
         want.append(M.describe(ref.unbound_sig, False))   # the definition as written (self kept)
+    if getattr(ref, 'class_sig', None) is not None:
+        want.append(M.describe(ref.class_sig, False))     # an instance: the text is its class's
     try:
         if M.describe(M.reparse(head), False) in want:
             return                  # one signature (possibly spanning lines: multi-line default)
@@ -254,12 +256,34 @@ KIND_PROBES = ((0, (), ('s3',)), (1, (), ('s1',)), (3, (('p',),), ('s3',)),
                (9, (('p',), ('k', 'zz')), ('s3',)))
 
 
+class _KindRef:
+    """What _check_full_doc needs: the signature of the object and of the definition as written."""
+
+    def __init__(self, obj, sig):
+        self.sig = sig
+        fn = getattr(obj, '__func__', obj)
+        if inspect.isclass(fn):
+            fn = fn.__dict__.get('__init__', fn)
+        elif not inspect.isroutine(fn):
+            # a callable instance: getdoc gives the class's docstring, so the constructor's
+            # signature is a legitimate signature line as well
+            try:
+                self.class_sig = inspect.signature(type(fn))
+            except (TypeError, ValueError):
+                pass
+            fn = type(fn).__call__
+        try:
+            self.unbound_sig = inspect.signature(fn)
+        except (TypeError, ValueError):
+            self.unbound_sig = None
+
+
 def _work_kinds(task):
     """One parameter list as method / classmethod / staticmethod / __call__ / __init__, plain and
     behind a functools.wraps-style pass-through decorator, reached bound and unbound (every
     access Python offers): parameters, kinds, to_string round trip, bracket_start, index in
-    four slots and call shapes against inspect.signature of the very object.  (Names and
-    docstrings of these objects are the docstring family's subject, not judged here.)"""
+    four slots, call shapes and docstring(raw=True) / docstring() against inspect.signature /
+    inspect.getdoc of the very object.  (Signature.name is not judged.)"""
     pl = task['pl']
     fails = []
     evals = cells = 0
@@ -298,6 +322,9 @@ def _work_kinds(task):
                 obs = {'to_string': sigs[0].to_string(), 'index': sigs[0].index,
                        'bracket_start': list(sigs[0].bracket_start),
                        'params': [[q.name, q.kind.name] for q in sigs[0].params]}
+                if not args:
+                    obs['doc_raw'] = sigs[0].docstring(raw=True)
+                    obs['doc'] = sigs[0].docstring()
             except BaseException as e:
                 if isinstance(e, (KeyboardInterrupt, SystemExit)):
                     raise
@@ -317,6 +344,13 @@ def _work_kinds(task):
                      observed=obs['index'])
             if args:
                 continue          # the rest does not depend on the cursor
+            # docstrings, as on the other families (Signature.name is not judged)
+            want_doc = inspect.getdoc(obj) or ''
+            if obs['doc_raw'] != want_doc:
+                fail('docstring-raw-mismatch@kinds', api='Signature.docstring',
+                     expected=want_doc, observed=obs['doc_raw'])
+            _check_full_doc(fail, obs['doc'], obs['doc_raw'], _KindRef(obj, sig),
+                            'Signature.docstring', 'kinds')
             try:
                 back = M.reparse(obs['to_string'])
                 got = M.describe(back, True)
@@ -803,7 +837,8 @@ def run(ctx):
         '`(x, *args, **kwargs)` wrappers in front of positional-only parameters are not '
         'enumerated (no legal Python signature describes them)',
         'docstring(): a signature line may show the definition as written (self kept) or as '
-        'bound',
+        'bound (for a callable instance also the constructor of its class, whose docstring it '
+        'shows); Signature.name is judged on the 9 basic carriers only',
         'line terminators: LF everywhere; the docstring family additionally with CRLF and with '
         'mixed CRLF+LF sources (no bare CR), executed and analysed as the very same text',
     ]
